@@ -3,7 +3,10 @@ use std::collections::{BTreeMap, btree_map::Entry};
 use proc_macro2::TokenStream;
 use quote::{ToTokens, quote};
 
-use crate::generator::ast::{RegexKey, RustType, ValidationAttribute, constants::HttpHeaderRef, tokens::ConstToken};
+use crate::generator::{
+  ast::{RegexKey, RustType, ValidationAttribute, constants::HttpHeaderRef, tokens::ConstToken},
+  codegen::Visibility,
+};
 
 #[derive(Clone, Debug)]
 pub(crate) struct RegexConstantFragment {
@@ -85,18 +88,35 @@ impl ToTokens for RegexConstantsResult {
 }
 
 #[derive(Clone, Debug, Default)]
-pub(crate) struct HeaderConstantsFragment(Vec<HttpHeaderRef>);
+pub(crate) struct HeaderConstantsFragment {
+  headers: Vec<HttpHeaderRef>,
+  visibility: Visibility,
+}
 
 impl HeaderConstantsFragment {
   pub(crate) fn new(headers: impl Into<Vec<HttpHeaderRef>>) -> Self {
-    Self(headers.into())
+    Self {
+      headers: headers.into(),
+      visibility: Visibility::default(),
+    }
+  }
+
+  /// Emits the constants with the requested visibility instead of `pub`.
+  pub(crate) fn with_visibility(mut self, visibility: Visibility) -> Self {
+    self.visibility = visibility;
+    self
   }
 }
 
 impl ToTokens for HeaderConstantsFragment {
   fn to_tokens(&self, tokens: &mut TokenStream) {
-    for header in &self.0 {
-      header.to_tokens(tokens);
+    let vis = self.visibility.to_tokens();
+    for header in &self.headers {
+      let const_token = &header.const_token;
+      let header_name = &header.header_name;
+      tokens.extend(quote! {
+        #vis const #const_token: http::HeaderName = http::HeaderName::from_static(#header_name);
+      });
     }
   }
 }
